@@ -29,6 +29,7 @@ use rayon::iter::ParallelIterator;
 use serde_json::json;
 use vcore::{catch, CaseOut, Viol};
 
+pub mod laws;
 pub mod val;
 
 pub type F = midnight_curves::Fq;
